@@ -5,7 +5,7 @@ The 12 scalar types are decided by exprsmt's Kani route (C14) and are not repeat
 """
 from __future__ import annotations
 
-from .wtypes import (Res, record, tup, enum, flags, variant, option, result, lst, mapty, own, borrow, STRING,
+from .wtypes import (Res, record, tup, enum, flags, variant, option, result, lst, mapty, own, borrow, alias, STRING,
                      BOOL, U8, S8, U16, S16, U32, S32, U64, S64, F32, F64, CHAR)
 from .assemble import Func, World
 
@@ -30,6 +30,15 @@ VS = variant("vs", [("a", STRING), ("b", U64)])         # pointer joined with i6
 RS = record("rs", [("a", U8), ("s", STRING)])
 RH = record("rh", [("h", own(RI)), ("n", U32)])
 VN = variant("vn", [("a", option(U8)), ("b", R1)])
+# element size mixes constant bytes and pointer units: 8 + 2*PTR (the unbracketed `i * 8+2*PTR` class of bugs)
+RXS = record("rxs", [("x", U64), ("s", STRING)])
+# tuples rustc reorders: (u8,u32,u8) is 12 bytes in the canonical ABI, 8 in Rust; reached through a `use`d alias
+TRIPLE = alias("triple", tup(U8, U32, U8))
+RT = record("rtt", [("tag", U8), ("t", tup(U8, U64, U16))])
+# an exported resource reached through an alias
+TALLY = Res("tally", exported=True, alias_of=RE)
+# imports: own handles inside list elements
+RHI = record("rhi", [("h", own(RI)), ("n", U32)])
 
 
 def rt(cls, t, tier="quick", max_l=None):
@@ -72,6 +81,12 @@ def funcs():
         rt("record-own-imported-u32", RH, "thorough"),
         Func("f-own-and-borrow", [("x", own(RI)), ("y", borrow(RI))], own(RI), "own-and-borrow-imported", tier="thorough"),
         Func("re-pass", [("x", own(RE))], own(RE), "exported-resource-lifecycle", special="re-pass"),
+        # --- shapes added after the seeded-bug review ---
+        # non-canonical list whose element size is bytes + pointer units; exactly 2 elements (1 is right by accident), strings <= 1 byte
+        Func("f-list-rxs-out", [], lst(RXS), "list-record-u64-string-result", fixed_l=2, max_s=1),
+        Func("f-list-rxs-in", [("x", lst(RXS))], None, "list-record-u64-string-param", fixed_l=2, max_s=1),
+        rt("list-alias-tuple-u8-u32-u8", lst(TRIPLE)), rt("list-record-u8-tuple-u8-u64-u16", lst(RT)),
+        Func("f-borrow-exported-alias", [("x", borrow(TALLY))], U32, "borrow-exported-alias"),
     ]
     return fs
 
@@ -82,13 +97,15 @@ def _has_string(t):
 
 
 def maps_world():
-    return World("w", [Func("f-map", [("x", mapty(U8, U32))], mapty(U8, U32), "map-u8-u32", special="map")])
+    imp = [Func("put-map", [("x", option(mapty(U32, U64)))], None, "-"), Func("put-maps", [("x", lst(mapty(U32, U64)))], None, "-")]
+    return World("w", [Func("f-map", [("x", mapty(U8, U32))], mapty(U8, U32), "map-u8-u32", special="map")], imp_funcs=imp)
 
 
 def world(cfg=None):
     if cfg is not None and cfg.get("world") == "maps":
         return maps_world()
-    imp = [Func("eat", [("x", own(RI))], None, "-"), Func("peek", [("x", borrow(RI))], U32, "-"), Func("mk", [], own(RI), "-")]
+    imp = [Func("eat", [("x", own(RI))], None, "-"), Func("peek", [("x", borrow(RI))], U32, "-"), Func("mk", [], own(RI), "-"),
+           Func("eat-list", [("x", lst(own(RI)))], None, "-"), Func("eat-recs", [("x", lst(RHI))], None, "-")]
     fs = funcs()
     if cfg is not None and cfg["opts"].get("raw_strings") == "true":
         # raw_strings: an exported function RETURNING a string does not compile (`Vec<u8>::into_bytes`; upstream TODO in
@@ -99,7 +116,7 @@ def world(cfg=None):
 
 # generator option matrix.  `classes`: None = every class of the tier; otherwise only the classes the option can affect
 ALT_CLASSES = ["record-u8-u16-u8-u32", "variant-f32-s64", "list-u32", "list-tuple-u8-u32", "string", "option-string",
-               "string-params-only", "result-list-u8-u8", "params-17-flat-indirect", "own-imported", "flags-33"]
+               "string-params-only", "list-alias-tuple-u8-u32-u8", "list-record-u64-string-param", "result-list-u8-u8", "params-17-flat-indirect", "own-imported", "flags-33"]
 
 
 def configs(tier, seed):
